@@ -338,6 +338,9 @@ pub(crate) fn parse_f64(v: &str) -> Option<f64> {
         ".inf" | ".Inf" | ".INF" | "+.inf" | "+.Inf" | "+.INF" => Some(f64::INFINITY),
         "-.inf" | "-.Inf" | "-.INF" => Some(f64::NEG_INFINITY),
         ".nan" | ".NaN" | ".NAN" => Some(f64::NAN),
-        _ => v.parse::<f64>().ok(),
+        // Rust also parses `inf`, `infinity` and `nan` (any case, signed), which are plain strings
+        // in YAML. Every core schema float has at least one digit.
+        _ if v.bytes().any(|b| b.is_ascii_digit()) => v.parse::<f64>().ok(),
+        _ => None,
     }
 }
